@@ -31,6 +31,30 @@ pub fn small_count(l: usize) -> u64 {
     (0..=l).map(|k| 10u64.pow(k as u32)).sum::<u64>() * 4
 }
 
+/// Second enumeration: UTF-8 malformation shapes (overlong leads C0/E0 80/F0 80, UTF-8-encoded
+/// surrogates ED A0, beyond-range F4 90, 5-byte lead F8, truncated sequences followed by ASCII).
+pub const UTF8_SHAPES: [u8; 12] = [0x41, 0x80, 0xBF, 0xC0, 0xC2, 0xE0, 0xED, 0xA0, 0xF0, 0xF4, 0x90, 0xF8];
+pub fn shapes_count() -> u64 {
+    (1..=4u32).map(|k| 12u64.pow(k)).sum::<u64>() * 4
+}
+fn shape_bytes(mut i: u64) -> Vec<u8> {
+    let mut len = 1usize;
+    loop {
+        let n = 12u64.pow(len as u32);
+        if i < n {
+            break;
+        }
+        i -= n;
+        len += 1;
+    }
+    let mut v = vec![b'a'];
+    for _ in 0..len {
+        v.push(UTF8_SHAPES[(i % 12) as usize]);
+        i /= 12;
+    }
+    v
+}
+
 /// Sized inputs with a chosen tail ("Z-sized-tail"): the total stored length sits on / next to a
 /// block boundary (64 KiB, 1 MiB, 2 MiB) and the input ends in a complete character, a truncated
 /// UTF-8 sequence, a lone UTF-16 lead surrogate or an odd trailing byte.
@@ -87,7 +111,7 @@ fn ztail_case(k: u64) -> Case {
 }
 
 pub fn exhaustive_count(l: usize) -> u64 {
-    small_count(l) + ztail_count()
+    small_count(l) + shapes_count() + ztail_count()
 }
 
 fn small_bytes(mut i: u64) -> Vec<u8> {
@@ -140,6 +164,18 @@ pub fn encode(text: &str, enc: &str, bom: bool) -> Vec<u8> {
 pub fn generate(run_seed: u64, corpus: &Corpus, sw: &Swarm, i: u64, exhaustive: u64) -> Case {
     if i < exhaustive && i >= exhaustive - ztail_count() {
         return ztail_case(i - (exhaustive - ztail_count()));
+    }
+    if i < exhaustive && i >= exhaustive - ztail_count() - shapes_count() {
+        let k = i - (exhaustive - ztail_count() - shapes_count());
+        return Case {
+            prop: "C18".into(),
+            gen: "U-utf8-shapes".into(),
+            bytes: shape_bytes(k / 4),
+            trap: TRAPS[(k % 4) as usize].into(),
+            fault_free: false,
+            enc: "raw".into(),
+            ..Case::default()
+        };
     }
     if i < exhaustive {
         return Case {
